@@ -26,7 +26,11 @@ EXTRA = {"C08-m1": ["C13"], "C06-m1": ["C07"], "C02-m2": ["C06"], "C13-m2": ["C1
          "C06-m5": ["C07"], "C06-m6": ["C07"], "C07-m5": ["C06"], "C07-m6": ["C06"], "C08-m5": ["C04"], "C08-m6": ["C13"],
          "C09-m5": ["C13"], "C10-m6": ["C11"], "C11-m5": ["C10"], "C11-m6": ["C05"], "C13-m5": ["C12"], "C13-m6": ["C15"],
          "C14-m5": ["C13"], "C14-m6": ["C13"], "C15-m6": ["C13"], "C16-m5": ["C05"], "C16-m6": ["C17"], "C17-m5": ["C16"],
-         "C17-m6": ["C16"], "C19-m5": ["C05"], "C19-m6": ["C04"]}
+         "C17-m6": ["C16"], "C19-m5": ["C05"], "C19-m6": ["C04"],
+         "C01-m7": ["C13", "C15"], "C01-m8": ["C03", "C10"], "C03-m7": ["C01", "C10"], "C03-m8": ["C10"], "C05-m7": ["C19"],
+         "C05-m8": ["C11"], "C08-m7": ["C15"], "C08-m8": ["C15"], "C09-m7": ["C01"], "C09-m8": ["C08"], "C10-m7": ["C15"],
+         "C10-m8": ["C15"], "C11-m7": ["C05"], "C13-m7": ["C14"], "C13-m8": ["C12"], "C14-m7": ["C13"], "C14-m8": ["C13"],
+         "C15-m8": ["C13"], "C16-m7": ["C17"], "C16-m8": ["C17"]}
 
 
 def sh(cmd, **kw):
